@@ -101,9 +101,14 @@ Inductive tok_result :=
 (* the text between startToken and endToken; comment tokens lose one trailing LF or CRLF *)
 Definition strip_eol (s : str) : str :=
   match frev s with
-  | 10 :: 13 :: r => frev r
-  | 10 :: r => frev r
-  | _ => s
+  | a :: r =>
+      if a =? 10 then
+        match r with
+        | b :: r' => if b =? 13 then frev r' else frev r
+        | [] => frev r
+        end
+      else s
+  | [] => s
   end.
 
 Definition is_comment_kind (k : tkind) : bool :=
@@ -150,6 +155,7 @@ Fixpoint string_body (f : nat) (quote : Z) (st0 st : lstate) : tok_result :=
                if c =? quote then TTok (end_token KString st0 st1) st1
                else if (c =? 92) && negb (quote =? 96) then
                  if eof st1 then TErr (ls_pos st0) EStringEOF
+                 else if peek_rune st1 =? 10 then TErr (ls_pos st1) EStringNewline
                  else match read_rune st1 with
                       | None => TPanic
                       | Some (_, st2) => string_body f' quote st0 st2
